@@ -145,7 +145,7 @@ class C15(Prop):
                 shape = [d, n // d]
                 if (n // d) % 2 == 0 and rng.random() < 0.3:
                     shape = [d, 2, n // d // 2]
-        k = rng.choice([1, 2, 3, 8, 10, -1, -2, -7, 20, -20]) if dtype == "float" else rng.choice([1, 2, 5])
+        k = rng.choice([1, 2, 3, 8, 10, -1, -2, -7, 20, -20, -45, -60, -100, 45, 100]) if dtype == "float" else rng.choice([1, 2, 5])
         return {"kind": kind, "dtype": dtype, "shape": shape, "data": v, "scale_exp": k}
 
     def targeted(self, tier):
